@@ -9,21 +9,22 @@ import (
 	"encoding/json"
 	"errors"
 	"fmt"
+	aelog "github.com/godaddy/asherah/go/appencryption/pkg/log"
 	"sort"
 	"strings"
 	"sync"
 	"time"
 
+	awsv2 "github.com/aws/aws-sdk-go-v2/aws"
+	kmsv2 "github.com/aws/aws-sdk-go-v2/service/kms"
 	awsv1 "github.com/aws/aws-sdk-go/aws"
 	reqv1 "github.com/aws/aws-sdk-go/aws/request"
 	kmsv1 "github.com/aws/aws-sdk-go/service/kms"
-	awsv2 "github.com/aws/aws-sdk-go-v2/aws"
-	kmsv2 "github.com/aws/aws-sdk-go-v2/service/kms"
 
 	ae "github.com/godaddy/asherah/go/appencryption"
 	"github.com/godaddy/asherah/go/appencryption/pkg/crypto/aead"
-	"github.com/godaddy/asherah/go/appencryption/pkg/persistence"
 	depkms "github.com/godaddy/asherah/go/appencryption/pkg/kms"
+	"github.com/godaddy/asherah/go/appencryption/pkg/persistence"
 	pv1 "github.com/godaddy/asherah/go/appencryption/plugins/aws-v1/kms"
 	pv2 "github.com/godaddy/asherah/go/appencryption/plugins/aws-v2/kms"
 
@@ -40,15 +41,17 @@ import (
 
 // cloud is the shared state of the fake regional KMS endpoints.
 type cloud struct {
-	mu        sync.Mutex
-	genFail   map[string]bool
-	encFail   map[string]bool
-	decState  map[string]int // 0 ok, 1 decrypt fails, 2 returns a wrong data key
-	calls     []string       // "op:region" in global order
-	retained  [][]byte       // plaintext slices handed to the plugins (GenerateDataKey / Decrypt outputs)
+	mu         sync.Mutex
+	genFail    map[string]bool
+	encFail    map[string]bool
+	decState   map[string]int // 0 ok, 1 decrypt fails, 2 returns a wrong data key
+	calls      []string       // "op:region" in global order
+	retained   [][]byte       // plaintext slices handed to the plugins (GenerateDataKey / Decrypt outputs)
 	retainedOp []string
-	counter   uint64
-	foreign   []string // requests that named a key of another region
+	counter    uint64
+	foreign    []string // requests that named a key of another region
+	secrets    [][]byte // copies of every data-key plaintext the endpoints produced (needles of the log scan)
+	logs       []string // what the plugins logged (a logger is installed by awsSpace)
 }
 
 func newCloud() *cloud {
@@ -57,7 +60,7 @@ func newCloud() *cloud {
 
 func (c *cloud) reset() {
 	c.mu.Lock()
-	c.calls, c.retained, c.retainedOp, c.foreign = nil, nil, nil, nil
+	c.calls, c.retained, c.retainedOp, c.foreign, c.secrets, c.logs = nil, nil, nil, nil, nil, nil
 	c.mu.Unlock()
 }
 
@@ -86,6 +89,28 @@ func (c *cloud) open(region string, blob []byte) ([]byte, error) {
 }
 
 var errFakeKMS = errors.New("fake kms: injected regional failure")
+
+type cloudLogger struct{ c **cloud }
+
+func (l cloudLogger) Debugf(format string, v ...interface{}) {
+	if c := *l.c; c != nil {
+		c.mu.Lock()
+		c.logs = append(c.logs, fmt.Sprintf(format, v...))
+		c.mu.Unlock()
+	}
+}
+
+// logLeak scans what the plugins logged during one EncryptKey / DecryptKey for plaintext key material: the system key
+// being wrapped and every data-key plaintext the regional endpoints produced.
+func (c *cloud) logLeak(sk []byte) (string, string) {
+	c.mu.Lock()
+	defer c.mu.Unlock()
+	needles := map[string][]byte{"the system key": sk}
+	for i, b := range c.secrets {
+		needles[fmt.Sprintf("data-key plaintext #%d", i)] = b
+	}
+	return scanLogLines(c.logs, needles)
+}
 
 // checkKey is what a regional endpoint does with the key id of a request: a master key of another region (or no key
 // id at all) is not found there. Every request is also a scheduling point of the schedule harness.
@@ -119,6 +144,7 @@ func (c *cloud) generate(region, arn string) ([]byte, []byte, error) {
 	p := append([]byte(nil), pt[:]...)
 	c.retained = append(c.retained, p)
 	c.retainedOp = append(c.retainedOp, "GenerateDataKey:"+region)
+	c.secrets = append(c.secrets, append([]byte(nil), p...))
 	return p, c.seal(region, p), nil
 }
 
@@ -166,6 +192,7 @@ func (c *cloud) decrypt(region string, blob []byte) ([]byte, error) {
 	}
 	c.retained = append(c.retained, pt)
 	c.retainedOp = append(c.retainedOp, "Decrypt:"+region)
+	c.secrets = append(c.secrets, append([]byte(nil), pt...))
 	return pt, nil
 }
 
@@ -323,6 +350,8 @@ func awsSpace(r *Report, prop string, maxN int) {
 		}
 	}
 	sk := []byte("system-key-bytes-32-bytes-long!!")
+	var curCloud *cloud
+	aelog.SetLogger(cloudLogger{&curCloud})
 	ncases, nontrivial := 0, 0
 	orders := map[string]bool{}
 	for n := 1; n <= maxN; n++ {
@@ -330,6 +359,7 @@ func awsSpace(r *Report, prop string, maxN int) {
 		for _, preferred := range regions {
 			for _, pair := range [][2]string{{"v1", "v1"}, {"v2", "v2"}, {"v1", "v2"}, {"v2", "v1"}, {"v1pub", "v1dep"}} {
 				c := newCloud()
+				curCloud = c
 				wrapper, err := buildPlugin(pair[0], c, regions, preferred)
 				if err != nil {
 					if strings.Contains(err.Error(), "VIOLATION-IN-CONSTRUCTION") {
@@ -395,6 +425,9 @@ func awsSpace(r *Report, prop string, maxN int) {
 					orders[pair[0]+":"+strings.Join(genCalls, ",")] = true
 					if len(c.foreign) > 0 {
 						fail("C17", "request-names-foreign-key:"+pair[0], tag, "%s: %s", tag, c.foreign[0])
+					}
+					if nn, line := c.logLeak(sk); nn != "" {
+						fail("C03", "aws-plaintext-leak-log:wrap:"+pair[0], tag, "%s: EncryptKey of the %s plugin printed %s into a log line: %.160q", tag, pair[0], nn, line)
 					}
 					for i, b := range c.retained {
 						if !allZero(b) {
@@ -499,6 +532,9 @@ func awsSpace(r *Report, prop string, maxN int) {
 								if c.decState[d] == 0 && i != len(dec)-1 {
 									fail("C17", "unwrap-continued-after-success", utag, "%s: Decrypt calls continued after %s succeeded: %v", utag, d, dec)
 								}
+							}
+							if nn, line := c.logLeak(sk); nn != "" {
+								fail("C03", "aws-plaintext-leak-log:unwrap:"+pair[1], utag, "%s: DecryptKey of the %s plugin printed %s into a log line: %.160q", utag, pair[1], nn, line)
 							}
 							for i, b := range c.retained {
 								if !allZero(b) {
